@@ -28,20 +28,23 @@ type upReader struct {
 	rows   [][2]int64
 	script []upStep
 	calls  int
-	// poison: a correct consumer never reads rows beyond n; we fill them with junk
+	ended  bool
 }
+
+// injectedFailures counts failing steps actually returned by scripted upstreams (per case).
+var injectedFailures int
 
 var errInjected = errors.New("injected upstream error")
 
 func (u *upReader) Read(ctx context.Context, out frame.Frame) (int, error) {
 	u.calls++
+	if u.ended {
+		return 0, sliceio.EOF
+	}
 	k := out.Len()
 	keys := out.Interface(0).([]int64)
 	vals := out.Interface(1).([]int64)
-	// junk beyond what we deliver, to catch consumers that read past n
-	for i := range keys {
-		keys[i], vals[i] = -555, -555
-	}
+	// a contract-abiding reader writes only the rows it returns
 	if len(u.script) == 0 {
 		n := k
 		if n > len(u.rows) {
@@ -52,6 +55,7 @@ func (u *upReader) Read(ctx context.Context, out frame.Frame) (int, error) {
 		}
 		u.rows = u.rows[n:]
 		if len(u.rows) == 0 {
+			u.ended = true
 			return n, sliceio.EOF
 		}
 		return n, nil
@@ -60,8 +64,10 @@ func (u *upReader) Read(ctx context.Context, out frame.Frame) (int, error) {
 	u.script = u.script[1:]
 	switch st.fail {
 	case "err":
+		injectedFailures++
 		return 0, errInjected
 	case "tmp":
+		injectedFailures++
 		return 0, baseerrors.E(baseerrors.Temporary, "injected temporary error")
 	}
 	n := st.max
@@ -76,6 +82,7 @@ func (u *upReader) Read(ctx context.Context, out frame.Frame) (int, error) {
 	}
 	u.rows = u.rows[n:]
 	if len(u.rows) == 0 && st.eof {
+		u.ended = true
 		return n, sliceio.EOF
 	}
 	return n, nil
@@ -233,6 +240,11 @@ func drain(r sliceio.Reader, t slicetype.Type, dest []int, extra int) string {
 			rows = append(rows, rt)
 		}
 		hs = append(hs, h)
+		if err != nil && err != sliceio.EOF {
+			// a failed stream: nothing after the error is part of the observation
+			done = true
+			break
+		}
 		if err != nil {
 			// after the end: a few more reads to observe stickiness
 			after++
@@ -270,6 +282,11 @@ var c17typed = constOf(nil, 1)
 
 // case: "<kind> [args] ; IN ... SCRIPT ... ; IN ... ; DEST k k k"
 func runC17(c string) string {
+	injectedFailures = 0
+	return runC17x(c) + fmt.Sprintf(" | injected=%d", injectedFailures)
+}
+
+func runC17x(c string) string {
 	parts := strings.Split(c, ";")
 	head := fields(parts[0])
 	ups := parseUps(parts[1:])
